@@ -226,6 +226,11 @@ func main() {
 		mk("userns", "apparmor", "DENIED", "operation", "userns_create", "class", "namespace", "info", "Userns create restricted - failed to find unprivileged_userns profile", "=error", "-13", "profile", "prog", "comm", "prog", "requested", "userns_create", "denied", "userns_create"),
 		mk("rlimit", "apparmor", "DENIED", "operation", "setrlimit", "class", "rlimits", "profile", "prog", "comm", "prog", "rlimit", "nofile", "=value", "1024"),
 		mk("change_onexec", "apparmor", "DENIED", "operation", "change_onexec", "class", "file", "info", "label not found", "=error", "-2", "profile", "prog", "name", "other", "comm", "prog", "target", "other"),
+		// (third hunt) the same request made with change_profile(2): no requested_mask, the target is the name
+		mk("change_profile", "apparmor", "DENIED", "operation", "change_profile", "class", "file", "info", "label not found", "=error", "-2", "profile", "prog", "name", "other2", "comm", "prog"),
+		// the nice limit is logged as the kernel's value (20 - nice): 30 stands for nice -10, 10 for nice 10
+		mk("rlimit-nice", "apparmor", "DENIED", "operation", "setrlimit", "class", "rlimits", "profile", "prog", "comm", "prog", "rlimit", "nice", "=value", "30"),
+		mk("rlimit-nice", "apparmor", "DENIED", "operation", "setrlimit", "class", "rlimits", "profile", "prog", "comm", "prog", "rlimit", "nice", "=value", "10"),
 	}
 	// a link whose target has a blank, a profile whose name has a blank (both hex-encoded by the kernel)
 	n++
